@@ -341,6 +341,10 @@ package engine
 //@   ensures [C18.order]   !closed && writable && pending ==> before(types.EventEmitter.Emit, 2, transports.Transport.Send, 1) && before(transports.Transport.Send, 1, types.EventEmitter.Emit, 3)
 //@   ensures [C18.group]   !closed && writable && pending ==> calls((*types.Slice).Push) == 1 && before(types.EventEmitter.Emit, 2, (*types.Slice).Push, 1) && before((*types.Slice).Push, 1, transports.Transport.Send, 1)
 //@   ensures [C18.unlock]  heldmode(s.flushMu) == 0
+// listeners of the flush and drain events, and send callbacks run when the transport has written the batch, may
+// themselves send or close (the property says so): what they push into the two buffers meanwhile is unknown to flush,
+// so nothing flush does after the hand-off may depend on the buffers being still empty
+//@   reenter types.EventEmitter.Emit, transports.Transport.Send modifies s.writeBuffer.elements, s.packetsFn.elements
 //@   callsite types.EventEmitter.Emit#1
 //@     assert [C18.flushbatch] $evt == "flush" && len($args) == 1
 // the writability test, the buffer swap and the hand-off form one critical section: two flushes can neither both see the
